@@ -26,7 +26,7 @@ LEVEL_NOTE = ("Trusted: Coq kernel + vm_compute; the three translators; the harn
               "proof; float rounding is outside the model (compared within 1e-9).")
 TECHNIQUE = "Coq proof about the executable model of fit + pmf; source translators; differential model/implementation run"
 TRUSTED = ["Coq 8.16.1 kernel and vm_compute", "translators/t_metricdict.py, translators/t_hull.py, translators/t_threshopt.py (Python ast -> Gallina)",
-           "harness/props/_c04_common.py (generators, oracles computed from the implementation's own _pmf_predict)",
+           "harness/props/_c04_common.py (generators, prefit multi-method scorer, oracles computed from the implementation's own _pmf_predict)",
            "numpy/pandas float arithmetic, groupby and stable multi-key sort (modelled, compared by correspondence)",
            "no axioms (Print Assumptions: closed)"]
 ASSUMPTIONS = ["scores are finite; the model uses integer score levels (any finite set of rational scores is one after a "
@@ -39,7 +39,10 @@ RULE = ("cases: every multiset (up to group swap and order-preserving relabellin
         "plus random tables (2..5 groups, 2..8 rows each, <=5 levels, grid sizes up to 1000); plus four structured streams "
         "(45 each, thorough 250): flip=False with one anti-correlated group (3/4 equalized odds), a single-distinct-score "
         "group beside heavily tied groups, a 2-row group beside a 10..18-row group / 1 row of one label against many, "
-        "grid_size 1 and 2 (frequencies: tags shape:*, eo:*). non-trivial = the chosen grid "
+        "grid_size 1 and 2 (frequencies: tags shape:*, eo:*). Every case draws predict_method (5/8 predict, 1/8 each "
+        "decision_function / predict_proba / auto) and a prefit scorer whose three methods give different exact images of "
+        "the feature (s, 2s-3, (16-s)/16 | s/16 | |s-1|/16) and which has only some of them (what auto resolves to); the "
+        "model gets the scores of the named method (tags predict_method:*). non-trivial = the chosen grid "
         "value is interior, or some group's rule is a genuine mixture (0<p0<1), or p_ignore>0")
 EXHAUSTIVE = {"quick": False, "thorough": False}
 PARTIAL = []
